@@ -6,8 +6,15 @@ vars == <<kind, a>>
 Win == [n : 3..7, ref : 0..6, target : 0..6, d : {0, 470, 1200}, tol : {0, 100}, avg : {470, 400}]
 WinOk == { w \in Win : w.ref # w.target /\ w.ref < w.n /\ w.target < w.n }
 Rings == [n : 3..9]
+\* several restraints in one molecule are independent: a residue carries the windows of every restraint whose path contains it
+Win2 == [n : {6, 7}, ref : {0, 1}, t1 : 2..6, ref2 : {0, 1, 3}, t2 : 2..6, d1 : {470, 1200}, d2 : {800}, tol : {100}, avg : {470}]
+Win2Ok == { w \in Win2 : w.t1 < w.n /\ w.t2 < w.n /\ w.t1 # w.ref /\ w.t2 # w.ref2 /\ <<w.ref, w.t1>> # <<w.ref2, w.t2>> /\ <<w.ref, w.t1>> # <<w.t2, w.ref2>> }
+\* several molecule types declared cyclic in one run: each ring gets its own closing pair
+Rings2 == [n : 3..7, n2 : 3..7]
 Init == \/ (kind = "window" /\ a \in WinOk)
         \/ (kind = "ring" /\ a \in Rings)
+        \/ (kind = "window2" /\ a \in Win2Ok)
+        \/ (kind = "ring2" /\ a \in Rings2)
 Next == UNCHANGED vars
 Spec == Init /\ [][Next]_vars
 Tree(n) == IF DevBfs THEN BfsTree(n) ELSE DfsTree(n)
@@ -16,7 +23,12 @@ WindowLaws == kind = "window" => /\ SameWindow(a.ref, a.target, a.d, a.tol, a.av
                                  /\ Nested(a.ref, a.target, a.d, a.tol, a.avg)
 RingLaw == kind = "ring" => /\ Cardinality(RingEdges(a.n) \ TreeEdgeSet(Tree(a.n))) = 1
                             /\ ClosingPairI(Tree(a.n)) = ClosingPairP(a.n, Tree(a.n))
-ExportInv == PrintT(<<"CASE", ToJson(IF kind = "window"
-      THEN [kind |-> kind, a |-> a, win |-> WindowI(a.ref, a.target, a.d, a.tol, a.avg)]
-      ELSE [kind |-> kind, a |-> a, pair |-> SetToSortSeq(ClosingPairP(a.n, DfsTree(a.n)), <), tree |-> DfsTree(a.n)])>>)
+Window2Law == kind = "window2" => /\ SameWindow(a.ref, a.t1, a.d1, a.tol, a.avg) /\ SameWindow(a.ref2, a.t2, a.d2, a.tol, a.avg)
+Ring2Law == kind = "ring2" => /\ ClosingPairI(Tree(a.n)) = ClosingPairP(a.n, Tree(a.n)) /\ ClosingPairI(Tree(a.n2)) = ClosingPairP(a.n2, Tree(a.n2))
+PairOf(n) == SetToSortSeq(ClosingPairP(n, DfsTree(n)), <)
+ExportInv == PrintT(<<"CASE", ToJson(
+      IF kind = "window" THEN [kind |-> kind, a |-> a, win |-> WindowI(a.ref, a.target, a.d, a.tol, a.avg)]
+      ELSE IF kind = "window2" THEN [kind |-> kind, a |-> a, win |-> WindowI(a.ref, a.t1, a.d1, a.tol, a.avg) \o WindowI(a.ref2, a.t2, a.d2, a.tol, a.avg)]
+      ELSE IF kind = "ring" THEN [kind |-> kind, a |-> a, pair |-> PairOf(a.n), tree |-> DfsTree(a.n)]
+      ELSE [kind |-> kind, a |-> a, pair |-> PairOf(a.n), pair2 |-> PairOf(a.n2)])>>)
 =============================================================================
